@@ -23,6 +23,7 @@ type opSpec struct {
 	Index  bool     `json:"prefer_index,omitempty"`
 	Twice  bool     `json:"run_twice,omitempty"`
 	Reload bool     `json:"reload,omitempty"`               // watch mode: Reload() the Project of the previous operation instead of a fresh Load
+	Keep   bool     `json:"keep_project,omitempty"`         // REPL: Run again on the Project of the previous operation, no reload (only when no code was edited since)
 	DryNil bool     `json:"dry_then_nil_options,omitempty"` // on one loaded project: a dry run, (N=1: Reload,) then Run with nil options
 	N      int      `json:"n,omitempty"`
 }
